@@ -741,6 +741,8 @@ def check_property(chk, prop, streams, extra_gen=()):
             else:
                 chk.extra.setdefault("stale_known_findings", []).append(o["key"])
     chk.extra["failing_inputs_attributed_to_known_findings"] = len(hit)
+    # inputs that already fail in stream order were judged (and attributed) above: the order passes look at the others only
+    stream_failures = {f["index"] for f in failing if any(p_ == prop for p_, _ in f["props"])}
     if unknown:
         f, mine, keys = unknown[0]
         chk.violation({"property": prop, "kind": "real converter violates the property on a metamodel-valid input",
@@ -749,7 +751,7 @@ def check_property(chk, prop, streams, extra_gen=()):
                        "dispatch_trace_keys": keys, "others": [{"site": u[0]["case"].get("site"), "what": u[1][0][:120]} for u in unknown[1:15]],
                        "all_unlisted": [{"site": u[0]["case"].get("site"), "target": u[0]["case"]["target"], "keys": u[2]} for u in unknown[:400]],
                        "broken": [x[:2] for x in fails]})
-    elif (fails or prop == "C01") and (hist := history_search(prop, cases)) is not None:
+    elif (fails or prop == "C01") and (hist := history_search(prop, [c for i, c in enumerate(cases) if i not in stream_failures])) is not None:
         # no single input fails in the order of the stream, but the converter's answers depend on what it handled BEFORE
         chk.violation({"property": prop, "kind": "real converter violates the property on a metamodel-valid input after a history of other inputs",
                        "input": {"target": hist["case"]["target"], "json": hist["case"]["input"], "site": hist["case"].get("site"),
